@@ -24,6 +24,7 @@ from .core import REPO, MachineryFailure
 
 KILL_CODE = 77
 EXC_CODE = 78
+NO_KILL = 1000      # "kill point" of a process that is left to end by itself
 
 
 def _load_pf():
@@ -63,46 +64,48 @@ def order_of(page_ids):
 
 
 # ------------------------------------------------------------------ stub page parser
-STUB = {"nlines": 2, "mode": "plain", "decoder_factory": None}
+STUB = {"nlines": 2, "mode": "plain", "parser_class": None}
 
 
 class StubPageParser:
-    """Stands for PageParser(config, config_path=..., device=...): two (NLines) text lines with logits, characters,
-    crops and a transcription, all derived from the page id only.  In mode "decode" the stub additionally owns one
-    long-lived real PageDecoder (built by STUB["decoder_factory"]) and runs it over the page, like the real
-    PageParser does with its decoder stage - this is what C08's schedule clause exercises."""
+    """Stands for PageParser(config, config_path=..., device=...): NLines text lines with logits, characters, crops and a
+    transcription, all derived from the page id only.  (C08's schedule clause installs another class through
+    STUB["parser_class"]: pd_common.DecodingPageParser, a subclass of the real PageParser.)"""
     provides_ctc_logits = True
 
     def __init__(self, config=None, config_path="", device=None):
         self.decoder = None
-        self.page_decoder = None
-        if STUB["mode"] == "decode":
-            self.page_decoder = STUB["decoder_factory"]()
 
     def process_page(self, image, page_layout):
         pid = page_layout.id
         seed = sum(ord(c) * (i + 1) for i, c in enumerate(pid)) % 251
         region = RegionLayout("r1", np.array([[0, 0], [50, 0], [50, 10 + 10 * STUB["nlines"]], [0, 10 + 10 * STUB["nlines"]]]))
         for i in range(STUB["nlines"]):
-            if STUB["mode"] == "decode":
-                line = STUB["line_factory"](pid, i)
-            else:
-                lg = np.full((12, 3), -20.0)
-                lg[:, 2] = 5
-                first = (seed + i) % 2
-                lg[3, first] = 10
-                lg[6, 1 - first] = 10
-                y = 10 + 10 * i
-                line = TextLine(id=str(i + 1), baseline=np.array([[2, y], [48, y]]),
-                                polygon=np.array([[2, y - 8], [48, y - 8], [48, y + 2], [2, y + 2]]), heights=[8, 2],
-                                transcription="ab" if first == 0 else "ba", logits=sp.csc_matrix(lg),
-                                characters=["a", "b", "~"], logit_coords=[0, 12],
-                                crop=np.full((8, 20, 3), (seed * 7 + 40 * i) % 256, dtype=np.uint8))
+            lg = np.full((12, 3), -20.0)
+            lg[:, 2] = 5
+            first = (seed + i) % 2
+            lg[3, first] = 10
+            lg[6, 1 - first] = 10
+            y = 10 + 10 * i
+            line = TextLine(id=str(i + 1), baseline=np.array([[2, y], [48, y]]),
+                            polygon=np.array([[2, y - 8], [48, y - 8], [48, y + 2], [2, y + 2]]), heights=[8, 2],
+                            transcription="ab" if first == 0 else "ba", logits=sp.csc_matrix(lg),
+                            characters=["a", "b", "~"], logit_coords=[0, 12],
+                            crop=np.full((8, 20, 3), (seed * 7 + 40 * i) % 256, dtype=np.uint8))
             region.lines.append(line)
         page_layout.regions = [region]
-        if self.page_decoder is not None:
-            self.page_decoder.process_page(page_layout)
         return page_layout
+
+
+def warm():
+    """compile the numba kernels / import the lazy modules used by the writers once in the parent, so that every forked
+    child starts warm (a cold ALTO export costs ~0.5 s, a warm one a few ms)"""
+    pl = StubPageParser().process_page(None, PageLayout(id="warm", page_size=(50, 50)))
+    pl.to_pagexml_string()
+    pl.to_altoxml_string()
+    pl.save_logits_bytes()
+    pl.render_to_image(np.zeros((50, 50, 3), np.uint8))
+    cv2.imencode(".jpg", np.zeros((8, 20, 3), np.uint8))
 
 
 # ------------------------------------------------------------------ the forked child
@@ -162,7 +165,7 @@ def _install_wrappers(dirs):
     PageLayout.save_logits = save_logits
     PageLayout.to_altoxml = to_altoxml
     cv2.imwrite = imwrite
-    pf.PageParser = StubPageParser
+    pf.PageParser = STUB.get("parser_class") or StubPageParser
     pf.Computator = TracingComputator
 
 
@@ -240,12 +243,13 @@ def run_once(base, kinds, kill_at=-1, process_count=1, timeout=120):
         ext = [e for e in events if e["e"] == "exit"]
         exit_ = ("exception:" + exc[-1]["type"]) if exc else (("exit:%d" % ext[-1]["code"]) if ext else "died:%d" % code)
     pages = [e for e in events if e["e"] == "page"]
-    rec = {"kill": kill_at if kill_at >= 0 else 0, "kill_requested": kill_at >= 0,
+    rec = {"kill": kill_at if kill_at >= 0 else NO_KILL,
            "started": [tokens_of(e["id"]) for e in pages],
            "n0known": bool(pages), "n0": pages[0]["count"] if pages else 0,
            "writes": [[e["k"], tokens_of(e["n"])] for e in events if e["e"] == "write"],
-           "exit": exit_, "workers": sorted({e["pid"] for e in pages})}
-    rec["workers"] = len(rec["workers"])
+           "exit": exit_, "workers": len({e["pid"] for e in pages})}
+    pids = sorted({e["pid"] for e in pages})
+    rec["page_workers"] = [pids.index(e["pid"]) + 1 for e in pages]
     return rec
 
 
@@ -281,7 +285,7 @@ def make_batch(base, page_ids):
         fh.write("[PAGE_PARSER]\n")
 
 
-def run_history(workroot, name, page_ids, kinds, schedule, reference=None, process_count=1):
+def run_history(workroot, name, page_ids, kinds, schedule, reference=None, process_count=1, inspect=None):
     """Execute one history: schedule = kill points of the successive processes (-1: left to end by itself).
     reference = {(kind, file): hash} of an uninterrupted run, None while that run itself is produced."""
     base = os.path.join(workroot, name)
@@ -296,7 +300,9 @@ def run_history(workroot, name, page_ids, kinds, schedule, reference=None, proce
                         for (kd, fn), h in sorted(ls.items())]
         runs.append(rec)
     final = listing(base, kinds)
+    if inspect is not None:
+        inspect(base)
     shutil.rmtree(base, ignore_errors=True)
     trace = {"order": [tokens_of(p) for p in order_of(page_ids)], "kinds": [k for k in KIND_ORDER if k in kinds],
-             "nlines": STUB["nlines"], "schedule": [k if k >= 0 else 1000 for k in schedule], "runs": runs}
+             "nlines": STUB["nlines"], "schedule": [k if k >= 0 else NO_KILL for k in schedule], "runs": runs}
     return trace, final
